@@ -285,6 +285,14 @@ func main() {
 		addCase(c)
 	}
 
+	for _, fx := range cfgFixtures {
+		for _, src := range []string{`{ print $1, $2, @"a" } END { print NR, ARGV[0] }`, `BEGIN { print system("exit 3"); print "x" | "cat"; "echo hi" | getline y; print y }`} {
+			c := api("config-struct", src, "a,b\n1,2\n")
+			c.Cfg = fx
+			addCase(c)
+		}
+	}
+
 	// ---- 10. the goawk binary: command-line glue ----
 	for _, c := range cliCases(r, thorough) {
 		addCase(c)
